@@ -81,6 +81,33 @@ def gen(ctx):
             c = mk_case("c14_%d" % n, cmds, scripts)
             c.meta["expect"] = [[(rows, 0)]]
             cases.append(c)
+    # chains in one response: several zero-column resultsets with different row counts, mixed with plain
+    # completions -- each OK reports ITS OWN rows
+    for _ in range(16 if ctx.quick() else 200):
+        n += 1
+        k = rng.randint(2, 5)
+        exp, prog = [], []
+        for j in range(k):
+            last = j == k - 1
+            if rng.random() < 0.7:
+                rows = rng.choice([0, 1, 2, 3, 5])
+                ops = " ".join(rng.choice(["er p", "wr 0 p"]) for _ in range(rows))
+                prog.append("start 0 " + ops + (" " if ops else "") + ("fin" if last else "fin1"))
+                exp.append((rows, 0))
+            else:
+                a, b = rng.choice([0, 7, 300]), rng.choice([0, 9])
+                prog.append(("done %d %d" if last else "c1 %d %d") % (a, b))
+                exp.append((a, b))
+        binary = rng.random() < 0.5
+        if binary:
+            cmds = [("prepare", cmd_prepare(b"p")), ("execute", cmd_execute(1)), ("ping", cmd_ping())]
+            scripts = ["p reply 1 0 0", "x all - " + " ".join(prog)]
+        else:
+            cmds = [("query", cmd_query(b"q")), ("ping", cmd_ping())]
+            scripts = ["q " + " ".join(prog)]
+        c = mk_case("c14_%d" % n, cmds, scripts)
+        c.meta["expect"] = [exp]
+        cases.append(c)
     return cases
 
 
